@@ -345,3 +345,31 @@ def hostile_script(r, idx):
     steps.append({"do": "run", "us": 300000})
     return {"cfg": cfg, "steps": steps, "tag": {"family": "dg-hostile", "window": w, "len": ln, "idx": idx,
                                                  "hostile": True}}
+
+
+def burst_script(r, idx):
+    """Back-to-back bursts of datagrams of arbitrary sizes: every way of filling a packet with whole
+    datagrams occurs, including the ones where exactly one or two bytes are left over."""
+    sn = r.choice([1, 1, 0])
+    imtu = r.choice([1200, 1452])
+    st = _quiet({"initial_mtu": imtu, "mtud": False, "dgram_send_buf": 1 << 20})
+    if imtu > 1200:
+        st["min_mtu"] = 1200
+    if r.random() < 0.3:
+        st["pad_to_mtu"] = True
+    rt = _quiet({"mtud": False})
+    cfg = base_cfg(r)
+    cfg["server"], cfg["client"] = (st, rt) if sn == 0 else (rt, st)
+    cfg["max_datagrams"] = r.choice([1, 3, 10])
+    steps = _settle(cfg)
+    did = 0
+    for _ in range(r.choice([2, 4, 8])):
+        for _ in range(r.choice([3, 6, 12])):
+            did += 1
+            steps.append({"do": "op_noflush", "n": sn, "c": 0,
+                          "op": {"op": "send_dgram", "did": did, "len": r.randrange(0, imtu - 40), "drop": False}})
+        steps.append({"do": "flush", "n": sn})
+        steps.append({"do": "run", "us": r.choice([30000, 100000])})
+    steps += [{"do": "run", "us": 300000}]
+    steps += [{"do": "op", "n": 1 - sn, "c": 0, "op": {"op": "recv_dgram"}} for _ in range(did + 1)]
+    return {"cfg": cfg, "steps": steps, "tag": {"family": "dg-burst", "idx": idx}}
